@@ -114,6 +114,13 @@ func check(cfg *program.Config, device, policies, policy string) {
 		return
 	}
 
+	// Code of device policy has been removed.
+	// We can't prove that device is up to date.
+	if _, err := os.Stat(path.Join(policies, devicePolicy)); err != nil {
+		fmt.Println(device)
+		return
+	}
+
 	// Compare Netspoc code of device policy with Netspoc code of current policy.
 	for _, dir := range []string{"code", "code/ipv6", "code/ipv4"} {
 		for _, ext := range []string{"", ".raw"} {
